@@ -971,3 +971,250 @@ def probe_rotations(entry, bl, br, rl, rr):
         return out_l, out_r, ser
     finally:
         _abandon(conn)
+
+
+# ------------------------------------------------------------------ histories of requests on ONE socket object
+
+KEEP_ENTRIES = ("create_keep", "create_keep_with_info", "recv_keep", "recv_keep_with_info")
+K_ENTRIES = KEEP_ENTRIES + ("recv_rsp", "recv_rsp_with_info")      # this node holds a qubit
+M_ENTRIES = ("create_measure", "create_rsp", "recv_measure")         # this node gets an outcome
+SDK_METHODS = ("sdk_create_epr_keep", "sdk_recv_epr_keep", "sdk_create_epr_measure", "sdk_recv_epr_measure",
+               "sdk_create_epr_rsp", "sdk_recv_epr_rsp")
+
+
+def call_request(sock, r):
+    """One request method of the socket, called as the application would. Returns (qubits, results)."""
+    from netqasm.sdk.build_epr import EprMeasBasis
+    e = r["entry"]
+    kw = dict(number=r["number"])
+    if e in KEEP_ENTRIES and r.get("post"):
+        kw["post_routine"] = _post_routine({})
+        kw["sequential"] = bool(r.get("sequential"))
+    if e.startswith("recv"):
+        kw["expect_phi_plus"] = r.get("expect", True)
+    if e in ("create_measure", "create_rsp"):
+        if r.get("bl") is not None:
+            kw["basis_local"] = EprMeasBasis[r["bl"]]
+        if tuple(r.get("rl", (0, 0, 0))) != (0, 0, 0) or r.get("pass_rots"):
+            kw["rotations_local"] = tuple(r.get("rl", (0, 0, 0)))
+    if e == "create_measure":
+        if r.get("br") is not None:
+            kw["basis_remote"] = EprMeasBasis[r["br"]]
+        if tuple(r.get("rr", (0, 0, 0))) != (0, 0, 0) or r.get("pass_rots"):
+            kw["rotations_remote"] = tuple(r.get("rr", (0, 0, 0)))
+    out = getattr(sock, e)(**kw)
+    if e.endswith("_with_info"):
+        return list(out[0]), list(out[1])
+    if e in M_ENTRIES:
+        return [], list(out)
+    return list(out), []
+
+
+def _spy_builder(builder, captured):
+    """Record, at call time, the fields of the EntRequestParams handed to the builder."""
+    for name in SDK_METHODS:
+        orig = getattr(builder, name)
+
+        def wrapper(*a, __orig=orig, **k):
+            p = k.get("params", a[0] if a else None)
+            captured.append({"number": int(p.number), "expect": bool(p.expect_phi_plus),
+                             "post": p.post_routine is not None, "sequential": bool(p.sequential),
+                             "rots": [int(x) for x in p.rotations_local] + [int(x) for x in p.rotations_remote]})
+            return __orig(*a, **k)
+        setattr(builder, name, wrapper)
+
+
+def history_params(reqs, pop_between=False):
+    """The requests of `reqs` made one after the other on ONE EPRSocket object (not executed): for each,
+    the parameters the builder was handed and the post_process flag of its measure result objects."""
+    P.reset_globals()
+    sock = EPRSocket("bob")
+    conn = P.PipelineConnection("alice", executor=P.TraceExecutor(name="alice"), epr_sockets=[sock],
+                                **_hardware("g12"))
+    captured, out = [], []
+    _spy_builder(conn.builder, captured)
+    try:
+        for r in reqs:
+            k = len(captured)
+            try:
+                qubits, results = call_request(sock, r)
+            except (AssertionError, ValueError, RuntimeError) as e:
+                out.append({"raises": type(e).__name__})
+                continue
+            if len(captured) != k + 1:
+                out.append({"raises": "no-builder-call"})
+                continue
+            obs = dict(captured[-1])
+            flags = {bool(x.post_process) for x in results if hasattr(x, "post_process")}
+            obs["post_process"] = (flags == {True})
+            if len(flags) > 1:
+                obs["post_process"] = "mixed"
+            out.append(obs)
+            if pop_between:
+                conn.builder.subrt_pop_pending_subroutine()
+        return out
+    finally:
+        _abandon(conn)
+
+
+class HistConn(P.PipelineConnection):
+    """Serves the CURRENT request of a history: a K-type response per pair (Bell state written between a
+    fresh local physical qubit and a fresh partner qubit) or an M-type response with the scripted raw
+    outcome; creator or receiver as the request says."""
+
+    def start(self, n_local):
+        self.n_local = n_local
+        self.top = n_local        # local physical qubits are taken from the top downwards, never reused
+        self.partner = n_local    # partner qubits from n_local upwards
+        self.cur = None
+
+    def begin(self, r):
+        self.cur, self.delivered, self.pairs = r, 0, []
+
+    def on_wait(self):
+        ex, r = self.executor, self.cur
+        before = len(ex._pending_epr_responses)
+        if before:
+            ex._handle_pending_epr_responses()
+            if len(ex._pending_epr_responses) < before:
+                return True
+        if r is None or self.delivered >= r["number"]:
+            return False
+        i = self.delivered
+        self.delivered += 1
+        b = r["bells"][i]
+        flag = 1 if r["entry"].startswith("recv") else 0
+        if r["entry"] in M_ENTRIES:
+            ex._handle_epr_response(LinkLayerOKTypeM(
+                type=ReturnType.OK_M, create_id=0, measurement_outcome=r["raw"][i], measurement_basis=0,
+                directionality_flag=flag, sequence_number=i, purpose_id=0, remote_node_id=1, goodness=0,
+                bell_state=BellState(b)))
+            return True
+        self.top -= 1
+        p, q = self.top, self.partner
+        self.partner += 1
+        taken = set(ex._used_physical_qubit_addresses)
+        if p in taken or p < 0:
+            raise RuntimeError("no fresh physical qubit")
+        _write_pair(ex, p, q, BELL_VECS[b])
+        self.pairs.append((p, q, b))
+        ex._handle_epr_response(LinkLayerOKTypeK(
+            type=ReturnType.OK_K, create_id=0, logical_qubit_id=p, directionality_flag=flag, sequence_number=i,
+            purpose_id=0, remote_node_id=1, goodness=0, goodness_time=0, bell_state=BellState(b)))
+        return True
+
+
+def execute_history(reqs):
+    """Execute the requests one after the other (a flush after each) on ONE connection and ONE EPRSocket
+    object; every request carries what the link delivers for it (`bells`, and `raw` for outcome forms).
+    Returns one observation per request."""
+    P.reset_globals()
+    total = sum(r["number"] for r in reqs if r["entry"] in K_ENTRIES)
+    n_local = total + 2
+    ex = P.StateVectorExecutor(name="alice", n_phys=n_local + total)
+    sock = EPRSocket("bob")
+    conn = HistConn("alice", executor=ex, epr_sockets=[sock], **_hardware("g12"))
+    conn.start(n_local)
+    rots = basis_rotations()
+    out = []
+    try:
+        for r in reqs:
+            conn.begin(r)
+            obs = {"status": "ok", "entry": r["entry"]}
+            out.append(obs)
+            n_req = len(ex.network_stack.requests)
+            try:
+                qubits, results = call_request(sock, r)
+            except (AssertionError, ValueError, RuntimeError) as e:
+                obs["status"] = "build-raises"
+                obs["error"] = f"{type(e).__name__}: {e}"[:200]
+                break
+            handle_ids = [q.qubit_id for q in qubits]
+            try:
+                conn.flush()
+            except Exception as e:  # noqa: BLE001
+                obs["status"] = "blocked" if "blocked on a wait" in str(e) else "runtime-fault"
+                obs["error"] = f"{type(e).__name__}: {e}"[:300]
+                break
+            if r["entry"] in M_ENTRIES:
+                outs = []
+                for x in results:
+                    try:
+                        outs.append(int(x.measurement_outcome))
+                    except Exception as e:  # noqa: BLE001
+                        outs.append(type(e).__name__)
+                obs["out"] = outs
+                obs["post_process"] = [bool(x.post_process) for x in results]
+                if r["entry"].startswith("create"):
+                    new = ex.network_stack.requests[n_req:]
+                    if len(new) == 1:
+                        q = new[0]
+                        obs["asked"] = [int(q.rotation_X_local1), int(q.rotation_Y_local), int(q.rotation_X_local2),
+                                        int(q.rotation_X_remote1), int(q.rotation_Y_remote), int(q.rotation_X_remote2)]
+                    want_l = rots[r["bl"]] if r.get("bl") else tuple(r.get("rl", (0, 0, 0)))
+                    want_r = (0, 0, 0)
+                    if r["entry"] == "create_measure":
+                        want_r = rots[r["br"]] if r.get("br") else tuple(r.get("rr", (0, 0, 0)))
+                    obs["application"] = list(want_l) + list(want_r)
+                continue
+            unit = ex._qubit_unit_modules[conn.app_id]
+            obs["handle_ids"] = handle_ids
+            plain = not r.get("post")
+            locs = [unit[handle_ids[i]] if plain else p for i, (p, q, b) in enumerate(conn.pairs)]
+            phi = BELL_VECS[BellState.PHI_PLUS.value]
+            obs["fid_phi_plus"] = [fidelity(ex.state, ex.n, [locs[i], q], phi) if locs[i] is not None else -1.0
+                                   for i, (p, q, b) in enumerate(conn.pairs)]
+            obs["fid_delivered"] = [fidelity(ex.state, ex.n, [locs[i], q], BELL_VECS[b])
+                                    if locs[i] is not None else -1.0 for i, (p, q, b) in enumerate(conn.pairs)]
+            if plain:
+                for q in qubits:   # make room for the next request
+                    q.free()
+        return out
+    finally:
+        _abandon(conn)
+
+
+def judge_history(reqs, obs, tol=1e-9):
+    """Every request judged exactly as a first request on a fresh socket. Returns problems tagged with
+    the index of the request."""
+    bad = []
+    for k, (r, o) in enumerate(zip(reqs, obs)):
+        if o["status"] != "ok":
+            bad.append({"request": k, "entry": r["entry"], "status": o["status"], "error": o.get("error")})
+            break
+        e = r["entry"]
+        if e in M_ENTRIES:
+            for i, (b, l) in enumerate(zip(r["bells"], r["raw"])):
+                out = o["out"][i]
+                if e.startswith("create"):
+                    if out != l or o["post_process"][i]:
+                        bad.append({"request": k, "entry": e, "pair": i, "bell": b, "raw": l, "reported": out,
+                                    "post_process": o["post_process"][i],
+                                    "wanted": "the creating side reports its raw outcome"})
+                    continue
+                if not r.get("expect", True):
+                    if out != l:
+                        bad.append({"request": k, "entry": e, "pair": i, "bell": b, "raw": l, "reported": out,
+                                    "wanted": "raw outcome (expectation off)"})
+                    continue
+                # the public receiver knows no bases: the partner measured Z, and so did the link on this side
+                z = (0, 0, 0)
+                p = joint_distribution(b, z, z)
+                want = joint_distribution(BellState.PHI_PLUS.value, z, z)
+                for rr in (0, 1):
+                    if p[l][rr] > 1e-9 and not (isinstance(out, int) and want[out][rr] > 1e-9):
+                        bad.append({"request": k, "entry": e, "pair": i, "bell": b, "raw": l, "remote": rr,
+                                    "reported": out, "wanted": "an outcome pair Phi+ can give (Z/Z)"})
+            if e.startswith("create") and o.get("asked") != o.get("application"):
+                bad.append({"request": k, "entry": e, "asked_of_link": o.get("asked"),
+                            "application": o.get("application"),
+                            "wanted": "the link is asked for the bases of THIS request"})
+            continue
+        corrects = e.startswith("recv") and r.get("expect", True)
+        for i, b in enumerate(r["bells"]):
+            f = o["fid_phi_plus"][i] if corrects else o["fid_delivered"][i]
+            if abs(f - 1) > tol:
+                bad.append({"request": k, "entry": e, "pair": i, "bell": b, "fidelity": round(f, 6),
+                            "handle_id": o["handle_ids"][i] if o.get("handle_ids") else None,
+                            "wanted": "phi+" if corrects else "delivered state untouched"})
+    return bad
